@@ -15,7 +15,12 @@ use erg_common::opcode310::Opcode310;
 use erg_common::opcode311::Opcode311;
 use erg_common::serialize::{get_magic_num_bytes, get_magic_num_from_bytes, get_ver_from_magic_num};
 use erg_compiler::ty::codeobj::jump_abs_addr;
+use erg_common::config::ErgConfig;
+use erg_common::python_util::PythonVersion;
+use erg_compiler::Compiler;
 use erg_harness::*;
+use std::collections::BTreeMap;
+use std::sync::Mutex;
 
 fn dump_enum<T: TryFrom<u8> + std::fmt::Debug>(name: &str) {
     for b in 0..=255u8 {
@@ -77,11 +82,75 @@ fn dump() {
     }
 }
 
+// ---------------------------------------------------------------------------------------------- written
+
+static LOG: Mutex<BTreeMap<(u8, String, u8), u64>> = Mutex::new(BTreeMap::new());
+
+fn sink(ty: &'static str, byte: u8, minor: u8) {
+    let short = ty.rsplit("::").next().unwrap_or(ty).to_string();
+    *LOG.lock().unwrap_or_else(|e| e.into_inner()).entry((minor, short, byte)).or_insert(0) += 1;
+}
+
+fn variant_name(enum_name: &str, b: u8) -> String {
+    fn n<T: TryFrom<u8> + std::fmt::Debug>(b: u8) -> String {
+        T::try_from(b).map(|v| format!("{:?}", v)).unwrap_or_else(|_| "?".to_string())
+    }
+    match enum_name {
+        "CommonOpcode" => n::<CommonOpcode>(b),
+        "Opcode308" => n::<Opcode308>(b),
+        "Opcode309" => n::<Opcode309>(b),
+        "Opcode310" => n::<Opcode310>(b),
+        "Opcode311" => n::<Opcode311>(b),
+        _ => "?".to_string(),
+    }
+}
+
+/// `c16 written <minor>:<magic>[,<minor>:<magic>...] <file.er>...`: compiles every file for every target in-process (the real
+/// `Compiler`, code generator instrumented through `verif_instr_log`) and prints
+///    file <minor> <path> <ok|rejected|crash(..)>
+///    w <minor> <enum> <byte> <variant> <count>
+fn written(rest: &[String]) {
+    let targets: Vec<(u8, u32)> = rest[0]
+        .split(',')
+        .map(|t| {
+            let (a, b) = t.split_once(':').expect("minor:magic");
+            (a.parse().unwrap(), b.parse().unwrap())
+        })
+        .collect();
+    erg_compiler::verif_hooks::verif_instr_log::set_sink(Some(sink));
+    for (minor, magic) in targets {
+        for f in &rest[1..] {
+            let path = std::path::PathBuf::from(f);
+            let res = catch(move || {
+                let mut cfg = ErgConfig::with_main_path(path);
+                cfg.target_version = Some(PythonVersion::new(3, Some(minor), Some(0)));
+                cfg.py_magic_num = Some(magic);
+                cfg.quiet_repl = true;
+                let mut compiler = Compiler::new(cfg);
+                match compiler.compile_module() {
+                    Ok(_) => "ok".to_string(),
+                    Err(_) => "rejected".to_string(),
+                }
+            });
+            let status = match res {
+                Ok(s) => s,
+                Err(e) => format!("crash({})", quote(&e.chars().take(120).collect::<String>())),
+            };
+            println!("file\t{}\t{}\t{}", minor, f, status);
+        }
+    }
+    let log = LOG.lock().unwrap_or_else(|e| e.into_inner());
+    for ((minor, en, b), c) in log.iter() {
+        println!("w\t{}\t{}\t{}\t{}\t{}", minor, en, b, variant_name(en, *b), c);
+    }
+}
+
 fn main() {
     quiet_panics();
     let a = parse_args();
     match a.mode.as_str() {
         "dump" => dump(),
-        _ => { eprintln!("usage: c16 dump"); std::process::exit(2); }
+        "written" => written(&a.rest),
+        _ => { eprintln!("usage: c16 dump | c16 written <minor:magic,...> <files>"); std::process::exit(2); }
     }
 }
